@@ -11,12 +11,14 @@
 (*      limit, stack of frames with the limits they saved, per field       *)
 (*      action decode / skip unknown by wire type / fail.  It models the   *)
 (*      pinned code as written (CodedInputStream of protobuf 3.21:         *)
-(*      PushLimit ignores limits beyond the enclosing one, BytesUntilLimit *)
-(*      is -1 without a limit, a failed length read pushes limit 0, the    *)
-(*      wire type of a known field is checked only when asserts are on,    *)
-(*      vector<float/double> reserves BytesUntilLimit()/sizeof elements).  *)
-(*      Terminal states: ok / fail (parse returned true / false), hang     *)
-(*      (a loop that makes no progress), abort (exception in noexcept).    *)
+(*      PushLimit ignores limits beyond the enclosing one (and negative /  *)
+(*      INT_MAX ones), a failed length read pushes limit 0, the            *)
+(*      wire type of a known field is checked only when asserts are on).   *)
+(*      Terminal states: ok / fail (parse returned true / false).  The     *)
+(*      repaired code (/repo 026019b, be0fcf7) has no loop that makes no    *)
+(*      progress and no exception in a noexcept function any more, so the  *)
+(*      machine never reaches "hang" / "abort"; the clauses Terminates /   *)
+(*      NoCrash stay and are judged on what the real code does.            *)
 (* Values: scalar = numeral of its unsigned image (uint32 image for the    *)
 (* types narrower than 64 bit, uint64 image otherwise); float/double =     *)
 (* opaque 4/8 byte sequences; string = byte sequence; vector/list/array =  *)
@@ -317,7 +319,10 @@ Call(m0, ct0, cv) == LET ct == Resolve(ct0)
      THEN LET r == RdVar(m0.inp, m0.pos, End(m0))
               p1 == m0.pos + r.n
               nl == PushLim(p1, m0.lim, IF r.ok THEN Int32(r.g) ELSE 0)
-              m == IF TopLevel(m0) /\ r.ok /\ Int32(r.g) >= Len(m0.inp) - p1 THEN Sens(m0, "c") ELSE m0
+              \* since the vector loop no longer consults BytesUntilLimit() every read is bounded by Min(limit, end of input),
+              \* so a limit pushed behind the end of an unlimited stream behaves like the ignored one of a bounded presentation:
+              \* no outcome depends on the presentation class any more (checked by SensSound in Wire_inv.cfg)
+              m == m0
           IN IF r.over THEN FailAmb(m)
              ELSE IF ct.k = "str"
                   THEN LET e == Min2(nl, Len(m.inp)) IN Return([m EXCEPT !.pos = e], SubSeq(m.inp, p1 + 1, e))
@@ -357,13 +362,9 @@ AggStep(m, f) ==
 
 Step(m0) == LET m == [m0 EXCEPT !.n = m0.n + 1] f == Top(m) t == f.t k == t.k
   IN CASE IsLeaf(t) -> LET r == LeafRead(m, t) IN IF r.ok THEN Complete([m EXCEPT !.pos = r.pos], r.v) ELSE Fail(m)
-       [] k = "vec" -> LET ms == IF TopLevel(m) THEN Sens(m, "c") ELSE m
-                       IN IF t.e.k \in {"f32", "f64"} /\ BUL(ms) = -1 THEN [ms EXCEPT !.st = "abort"]
-                          ELSE IF BUL(ms) > 0
-                          THEN (IF f.mark = ms.pos THEN [ms EXCEPT !.st = "hang"]
-                                ELSE Call(SetTop(ms, [f EXCEPT !.mark = ms.pos]), t.e, Default(t.e)))
-                          ELSE Complete(ms, f.v)
-       [] k \in {"list", "set", "rep"} -> IF HasData(m) THEN Call(m, t.e, Default(t.e)) ELSE Complete(m, f.v)
+       \* vector (since /repo be0fcf7), list, set: an element while data is available below the limit - works without an
+       \* enclosing limit and stops at the end of the stream; vector<float/double> reserves min(limit, buffer) bytes only
+       [] k \in {"vec", "list", "set", "rep"} -> IF HasData(m) THEN Call(m, t.e, Default(t.e)) ELSE Complete(m, f.v)
        [] k = "map" -> IF f.hk THEN Call(m, t.e, Default(t.e))
                        ELSE IF HasData(m) THEN Call(m, t.x, Default(t.x)) ELSE Complete(m, f.v)
        [] k = "arr" -> IF t.e.k \in {"f32", "f64"}
